@@ -23,7 +23,7 @@ STUBS = ["constructor state built directly (stub assigner answering whether the 
          "reference sequence built from solver-chosen dinucleotides"]
 ASSUMPTIONS = ["paths are given as the path storage holds them (intron tuples between typed terminal vertices)",
                "detect_similar_isoforms: models of 3 exons with the same intron chain, ends within 200 bp"]
-OUTSIDE = ["IntronCollector clustering / graph simplification (intron_graph.py) - not encoded", "global coverage thresholds' adequacy",
+OUTSIDE = ["path threading through the intron graph (IntronPathProcessor) and the coverage-based transcript filters", "global coverage thresholds' adequacy",
            "pairwise novelty over the whole filter loop"]
 
 INTRONS = [(11, 30), (41, 60), (71, 90)]
@@ -110,6 +110,88 @@ def h_similar(preset):
     return fn
 
 
+POOL = [(1201, 1999), (2151, 2999), (3301, 3999)]
+
+
+def h_clustering(n, known_mask_bits=True):
+    """IntronCollector.cluster_introns + simplify_correction_map: read introns near the pool introns (offset chosen by the
+    solver within delta+1), SYMBOLIC read counts; evidence invariants of clustering and substitution"""
+    def fn(g):
+        params = readfam.construction_params("default")
+        d = params.delta
+        offs = [-d - 1, -1, 0, d]
+        introns = []
+        for i in range(n):
+            base = POOL[i % 2]                      # several variants of the same two junctions
+            o1 = offs[g.choice("intron%d_left_offset" % i, len(offs))]
+            o2 = offs[g.choice("intron%d_right_offset" % i, len(offs))]
+            it = (base[0] + o1, base[1] + o2)
+            if it in introns:
+                g.assume(False)
+            introns.append(it)
+        counts = {it: g.int("reads_with_intron%d" % i, 1, 200) for i, it in enumerate(introns)}
+        known = {it for i, it in enumerate(introns) if g.bool("intron%d_is_annotated" % i)} if known_mask_bits else set()
+        gi = Obj(intron_profiles=Obj(features=sorted(known)))
+        ic = intron_graph.IntronCollector(gi, d)
+        call(g, ic.cluster_introns, dict(counts), params.min_novel_intron_count)
+        clustered, cmap, disc = ic.clustered_introns, ic.intron_correction_map, ic.discarded_introns
+        present = set(introns)
+        g.check(set(clustered.keys()) <= present, "clustered introns are introns present in the reads")
+        g.check(set(cmap.values()) <= present and set(cmap.keys()) <= present, "substitutes are introns present in the reads")
+        for a, b in cmap.items():
+            g.check(abs(a[0] - b[0]) <= d and abs(a[1] - b[1]) <= d, "an intron is only substituted by a similar intron (within delta)")
+            g.check(b in clustered, "a substitute is a kept intron")
+            g.check(a not in known, "an annotated intron is never substituted")
+        for it in introns:
+            g.check((it in clustered) + (it in cmap) + (it in disc) == 1, "every read intron is kept, substituted or discarded - exactly one of them",
+                    detail={"intron": list(it)})
+        total_kept = sum_vals([clustered[k_] for k_ in clustered])
+        total_in = sum_vals([counts[it] for it in introns if it not in disc])
+        g.check(total_kept == total_in, "read counts are conserved by clustering (kept + substituted)")
+        for it in disc:
+            g.check(counts[it] < params.min_novel_intron_count, "only introns below the minimal count are discarded")
+        call(g, ic.simplify_correction_map)
+        for a, b in ic.intron_correction_map.items():
+            g.check(b not in ic.intron_correction_map and b not in ic.discarded_introns, "after simplification no substitution chain ends in a substituted or discarded intron")
+    return fn
+
+
+def sum_vals(xs):
+    acc = 0
+    for x in xs:
+        acc = acc + x
+    return acc
+
+
+def h_graph_vertices(n_reads):
+    """the real IntronGraph (collect, cluster, construct, simplify, terminal positions) on reads whose intron chains are
+    chosen by the solver from near-identical variants: every vertex the graph keeps is an intron of some read"""
+    def fn(g):
+        params = readfam.construction_params("default")
+        variants = [[(1201, 1999), (1203, 1999), (1201, 2004)], [(2151, 2999), (2155, 2999)], [(3301, 3999)]]
+        reads, all_read_introns = [], set()
+        for r in range(n_reads):
+            n_int = 1 + g.choice("read%d_introns" % r, 3)
+            chain = [variants[k][g.choice("read%d_variant%d" % (r, k), len(variants[k]))] for k in range(n_int)]
+            start, end = 1000 + g.choice("read%d_start" % r, 3) * 40, chain[-1][1] + 150
+            exons = common.get_exons((start, end), chain)
+            reads.append(Obj(read_id="r%d" % r, corrected_introns=chain, corrected_exons=exons, exons=exons, multimapper=False, polyA_found=bool(g.bool("read%d_polya" % r)),
+                             polya_info=Obj(external_polya_pos=-1, external_polyt_pos=-1, internal_polya_pos=-1, internal_polyt_pos=-1), strand="+",
+                             cage_found=False, read_group="NA", mapping_quality=60))
+            all_read_introns.update(chain)
+        gi = Obj(intron_profiles=Obj(features=[]), all_isoforms_introns={}, all_isoforms_exons={}, start=900, end=4500, chr_id="chr1")
+        graph = call(g, intron_graph.IntronGraph, params, gi, reads)
+        verts = set()
+        for v, outs in list(graph.outgoing_edges.items()) + list(graph.incoming_edges.items()):
+            verts.add(v)
+            verts.update(outs)
+        inner = {v for v in verts if v[0] >= 0}
+        g.check(inner <= all_read_introns, "every intron vertex of the simplified graph is an intron present in some read",
+                detail={"foreign": sorted(inner - all_read_introns)})
+        g.check(set(graph.intron_collector.clustered_introns) <= all_read_introns, "kept introns are read introns")
+    return fn
+
+
 def instances(tier, seed):
     q = tier == "quick"
     G = "src.graph_based_model_construction:GraphBasedModelConstructor."
@@ -119,6 +201,17 @@ def instances(tier, seed):
                                                                     "src.gene_info:StrandDetector.get_strand"],
                             "one full-length path with %d introns; annotation membership, sites, terminal vertices, report level chosen by the solver; symbolic read count" % n,
                             weight=100 * 3 ** n, budget_s=2400))
+    for n in ((2,) if q else (2, 3)):
+        out.append(Instance("clustering[introns=%d]" % n, h_clustering(n), ["src.intron_graph:IntronCollector.cluster_introns",
+                                                                             "src.intron_graph:IntronCollector.construct_similar_intron_map",
+                                                                             "src.intron_graph:IntronCollector.simplify_correction_map"],
+                            "%d read introns at solver-chosen offsets (within delta+1) of two junctions, symbolic read counts, symbolic annotation membership" % n,
+                            weight=50 * 4 ** n, budget_s=2400))
+    for n in ((2,) if q else (2, 3)):
+        out.append(Instance("graph_vertices[reads=%d]" % n, h_graph_vertices(n), ["src.intron_graph:IntronGraph.__init__", "src.intron_graph:IntronGraph.construct",
+                                                                                  "src.intron_graph:IntronGraph.simplify", "src.intron_graph:IntronGraph.clean_tips_and_bulges",
+                                                                                  "src.intron_graph:IntronGraph.collapse_vertex_set"],
+                            "%d reads with solver-chosen chains over near-identical intron variants" % n, weight=5000, budget_s=2400))
     for preset in (["default"] if q else ["precise", "default", "loose"]):
         out.append(Instance("similar[%s]" % preset, h_similar(preset), [G + "detect_similar_isoforms", "src.long_read_assigner:LongReadAssigner.assign_to_isoform"],
                             "two novel models with one intron chain, symbolic ends", weight=300, budget_s=1800))
